@@ -2219,3 +2219,62 @@ Proof.
   eapply safe_run; [|exact H|exact Hp].
   split; [exact Hf|]. split; [exact Hlen|]. intros da E; discriminate E.
 Qed.
+
+(* ------------------------------------------------------------------ the shape of one transmit call (F11) *)
+
+(* zero or more turns that end silently (nothing to send, no event), then: a request (the call returns
+   Some), or a turn that ends with the Offline event (the call returns None: with the fix for F11 the call
+   ends after the first event, the next call continues with the next slot), or the end of the pass *)
+Fixpoint call_shape (log : list gent) (o : txout) : Prop :=
+  match log with
+  | [] => o = None
+  | e :: r =>
+      match e with
+      | GSend _ _ _ h _ => r = [] /\ exists w, o = Some (w, tx_expects_reply h)
+      | GSkip _ _ _ (Some ev) => r = [] /\ o = None /\ ev = EvOffline
+      | GSkip _ _ _ None => call_shape r o
+      | _ => False
+      end
+  end.
+
+Lemma tx_rel_shape : forall pa bufsize m m' o log, tx_rel pa bufsize m m' o log -> call_shape log o.
+Proof.
+  intros pa bufsize m m' o log H. induction H as
+    [m Hc|m index Hc Hg|m index hd p p1 h pdu o Hc Hg Hp Hs|m index hd p p1 ev m2 Hc Hg Hp Hi
+    |m index hd p p1 e m2 Hc Hg Hp Hi|m index hd p p1 m2 m' o log Hc Hg Hp Hi Hrel IH]; cbn [call_shape];
+    try reflexivity.
+  - split; [reflexivity|]. unfold send_data in Hs. destruct (encode_data_in bufsize h pdu) as [w| |]; cbn [bind] in Hs;
+      try discriminate Hs. inversion Hs; subst. exists w. reflexivity.
+  - destruct ev as [e|]; [|reflexivity]. split; [reflexivity|]. split; [reflexivity|].
+    pose proof (transmit_spec _ _ _ _ _ Hp) as Hts. cbn beta iota in Hts. destruct Hts as [-> _]. reflexivity.
+  - split; [reflexivity|]. split; [reflexivity|].
+    pose proof (transmit_spec _ _ _ _ _ Hp) as Hts. cbn beta iota in Hts. destruct Hts as [-> _]. reflexivity.
+  - exact IH.
+Qed.
+
+Lemma call_shape_transmit : forall pa bufsize m now hp m' o log,
+  dp_transmit_g pa bufsize m now hp = Ok (m', o, log) -> existsb is_gc log = false -> call_shape log o.
+Proof.
+  intros pa bufsize m now hp m' o log H Hgc.
+  destruct (dp_transmit_g_cases _ _ _ _ _ _ _ _ H) as
+    [(_ & _ & -> & ->)|[(_ & _ & _ & _ & -> & _)|(_ & _ & Hrel)]].
+  - reflexivity.
+  - discriminate Hgc.
+  - eapply tx_rel_shape. exact Hrel.
+Qed.
+
+(* ------------------------------------------------------------------ cycle_item spelled out *)
+
+Lemma cycle_item_spec : forall occ rem it rem2,
+  cycle_item occ rem it = Some rem2 ->
+  exists rem', turn_entries rem (it_log it) = Some rem' /\
+    (ev_cycle_completed (reported it) = true <-> (sched_ran it = true /\ rem' = [])) /\
+    rem2 = (if ev_cycle_completed (reported it) then occ else rem').
+Proof.
+  intros occ rem it rem2 H. unfold cycle_item in H.
+  destruct (turn_entries rem (it_log it)) as [rem'|]; [|discriminate H].
+  exists rem'. split; [reflexivity|].
+  destruct (sched_ran it); destruct rem' as [|a r]; cbn [andb is_nil] in H;
+    destruct (ev_cycle_completed (reported it)); try discriminate H; inversion H; subst;
+    (split; [split; [intro E; try discriminate E; split; reflexivity|intros [E1 E2]; try discriminate E1; try discriminate E2; reflexivity]|reflexivity]).
+Qed.
